@@ -154,8 +154,17 @@ def meta_cases():
     u = 2.0 ** -22
     try:
         for key, md in sorted(model.models_available.items()):
-            for orient in ("desc", "asc"):
-                rec = {"model": key, "orient": orient, "raised": "",
+            for orient, point in [(o, pt) for o in ("desc", "asc")
+                                  for pt in ("default", "soft", "stiff",
+                                             "layer_stiffer")]:
+                if point != "default" and key.startswith("verif_toy"):
+                    continue
+                if point == "layer_stiffer" and not (
+                        "E_S" in md.parameter_keys
+                        and "E_L" in md.parameter_keys):
+                    continue
+                rec = {"model": key, "orient": orient, "point": point,
+                       "raised": "",
                        "shape_ok": True, "translation_ok": True,
                        "baseline_ok": True, "linear_ok": True,
                        "continuous_ok": True, "monotone_ok": True,
@@ -170,6 +179,19 @@ def meta_cases():
                     cp = 3 * u
                     p["contact_point"].set(value=cp)
                     p["baseline"].set(value=2.0 ** -31)
+                    pa_keys = [k2 for k2, un in zip(md.parameter_keys,
+                                                    md.parameter_units)
+                               if un == "Pa"]
+                    if point in ("soft", "stiff"):
+                        # every modulus far below 1 Pa / in the MPa range
+                        fac = 2.0 ** -14 if point == "soft" else 2.0 ** 9
+                        for k2 in pa_keys:
+                            p[k2].set(value=p[k2].value * fac,
+                                      min=-np.inf, max=np.inf)
+                        p["baseline"].set(value=2.0 ** -31 * fac)
+                    elif point == "layer_stiffer":
+                        p["E_S"].set(value=500.)
+                        p["E_L"].set(value=800.)
                     depth = 12 * u if "R" in p else 40 * u
                     x = cp + np.linspace(8, -12 if "R" in p else -40, 41) * u
                     if toy:
@@ -195,7 +217,8 @@ def meta_cases():
                         s = 64 * u if not toy else 4.0
                         pt = md.get_parameter_defaults()
                         for n2 in p:
-                            pt[n2].set(value=p[n2].value)
+                            pt[n2].set(value=p[n2].value, min=-np.inf,
+                                   max=np.inf)
                         pt["contact_point"].set(value=cp + s)
                         ft = np.asarray(md.model(pt, x + s), float)
                         rec["translation_ok"] = bool(
@@ -203,7 +226,8 @@ def meta_cases():
                         # baseline additivity
                         pb = md.get_parameter_defaults()
                         for n2 in p:
-                            pb[n2].set(value=p[n2].value)
+                            pb[n2].set(value=p[n2].value, min=-np.inf,
+                                   max=np.inf)
                         db = 2.0 ** -29 if not toy else 2.0
                         pb["baseline"].set(value=b0 + db)
                         fb = np.asarray(md.model(pb, x), float)
@@ -220,14 +244,15 @@ def meta_cases():
                         mod_keys = [k2 for k2, un in zip(
                             md.parameter_keys, md.parameter_units)
                             if un == "Pa"]
-                        for k2 in mod_keys:
-                            pl[k2].set(value=2 * p[k2].value)
-                        fl = np.asarray(md.model(pl, x), float)
-                        if order_sensitive:
-                            rec["linear_ok"] = True
-                        else:
-                            rec["linear_ok"] = bool(np.all(np.abs(
-                                (fl - b0) - 2 * (f0 - b0)) <= 1e-9 * scale))
+                        rec["linear_ok"] = True
+                        for lam in (2.0, 2.0 ** -3, 2.0 ** 7):
+                            for k2 in mod_keys:
+                                pl[k2].set(value=lam * p[k2].value)
+                            fl = np.asarray(md.model(pl, x), float)
+                            if not order_sensitive and not np.all(np.abs(
+                                    (fl - b0) - lam * (f0 - b0))
+                                    <= 1e-9 * scale * max(lam, 1.)):
+                                rec["linear_ok"] = False
                         # continuity at contact, monotone with depth
                         if not toy:
                             # (moderately small depths: the optional exact
@@ -251,7 +276,8 @@ def meta_cases():
                                                          else 1)):
                                 pr = md.get_parameter_defaults()
                                 for n2 in p:
-                                    pr[n2].set(value=p[n2].value)
+                                    pr[n2].set(value=p[n2].value, min=-np.inf,
+                                   max=np.inf)
                                 pr["contact_point"].set(value=cpr)
                                 wd = 4 * u if not toy else 3.0
                                 r = np.asarray(md.residual(
